@@ -3,7 +3,12 @@
 //! query — with a value built afresh. This is obligation V: whatever a value has memoised, and
 //! whatever it was derived from, it must answer like an equal value that has no past.
 
+use tyme4rs::tyme::eightchar::{ChildLimit, DecadeFortune, EightChar, Fortune};
+use tyme4rs::tyme::enums::Gender;
+use tyme4rs::tyme::festival::LunarFestival;
 use tyme4rs::tyme::lunar::{LunarDay, LunarHour, LunarWeek};
+use tyme4rs::tyme::sixtycycle::{SixtyCycle, SixtyCycleMonth};
+use tyme4rs::tyme::Culture;
 use tyme4rs::tyme::sixtycycle::{SixtyCycleDay, SixtyCycleHour};
 use tyme4rs::tyme::solar::{SolarDay, SolarTerm, SolarTime};
 use tyme4rs::tyme::Tyme;
@@ -17,16 +22,49 @@ pub enum Handle {
   CH(SixtyCycleHour),
   W(LunarWeek),
   T(SolarTerm),
+  /// eight characters, plus the calendar year its range queries are centred on
+  EC(EightChar, i64),
+  CL(ChildLimit),
+  DF(DecadeFortune),
+  FT(Fortune),
+  CM(SixtyCycleMonth),
+  LF(LunarFestival),
 }
 
-pub const HKINDS: [&str; 6] = ["LD", "LH", "SCD", "SCH", "LW", "TERM"];
-pub const HARITY: [usize; 6] = [3, 6, 3, 6, 4, 2];
-pub const HGETTERS: [usize; 6] = [LD_GETTERS, LH_GETTERS, 12, 8, 4, 4];
-/// key names of the plain queries equivalent to creating / querying / stepping a handle
-pub const HNEW_KEY: [&str; 6] = ["LD.new", "LH.new", "SCD.new", "SCH.new", "LW.new", "TERM.new"];
-pub const HGET_KEY: [&str; 6] = ["LD.get", "LH.get", "SCD.get", "SCH.get", "LW.get", "TERM.get"];
-pub const HSTEP_KEY: [&str; 6] = ["LD.step", "LH.step", "SCD.next", "SCH.next", "LW.step", "TERM.next"];
-pub const HCMP_KEY: [&str; 6] = ["LD.cmp", "LH.cmp", "SCD.cmp", "SCH.cmp", "LW.cmp", "TERM.cmp"];
+pub const NHK: usize = 12;
+pub const HKINDS: [&str; NHK] = ["LD", "LH", "SCD", "SCH", "LW", "TERM", "EC", "CLH", "DF", "FT", "SCM", "LF"];
+/// number of integers from which an equal value can be built (`make`)
+pub const HARITY: [usize; NHK] = [3, 6, 3, 6, 4, 2, 5, 7, 8, 8, 2, 2];
+pub const HGETTERS: [usize; NHK] = [LD_GETTERS, LH_GETTERS, 12, 8, 4, 4, 66, 6, 6, 5, 6, 3];
+/// key names of the plain queries equivalent to creating / querying / stepping / comparing
+pub const HNEW_KEY: [&str; NHK] = ["LD.new", "LH.new", "SCD.new", "SCH.new", "LW.new", "TERM.new", "EC.mk", "CLH.new", "DF.new", "FT.new", "SCM.new", "LF.new"];
+pub const HGET_KEY: [&str; NHK] = ["LD.get", "LH.get", "SCD.get", "SCH.get", "LW.get", "TERM.get", "EC.get", "CLH.get", "DF.get", "FT.get", "SCM.get", "LF.get"];
+pub const HSTEP_KEY: [&str; NHK] = ["LD.step", "LH.step", "SCD.next", "SCH.next", "LW.step", "TERM.next", "EC.step", "CLH.step", "DF.step", "FT.step", "SCM.step", "LF.step"];
+pub const HCMP_KEY: [&str; NHK] = ["LD.cmp", "LH.cmp", "SCD.cmp", "SCH.cmp", "LW.cmp", "TERM.cmp", "EC.cmp", "CLH.cmp", "DF.cmp", "FT.cmp", "SCM.cmp", "LF.cmp"];
+
+const EC_START_BACK: [i64; 8] = [0, 1, 2, 59, 60, 61, 120, 180];
+const EC_END_FWD: [i64; 8] = [-2, -1, 0, 1, 2, 58, 60, 120];
+
+fn gender_of(x: i64) -> Gender {
+  if x == 0 {
+    Gender::WOMAN
+  } else {
+    Gender::MAN
+  }
+}
+
+fn cl_base(c: &ChildLimit) -> Vec<i64> {
+  let t = c.get_start_time();
+  vec![t.get_year() as i64, t.get_month() as i64, t.get_day() as i64, t.get_hour() as i64, t.get_minute() as i64, t.get_second() as i64, if c.get_gender() == Gender::MAN { 1 } else { 0 }]
+}
+
+fn r_df(d: &DecadeFortune) -> String {
+  format!("DF({} {} age={}..{} scy={}..{} sc={})", d.get_name(), d.get_index(), d.get_start_age(), d.get_end_age(), d.get_start_sixty_cycle_year(), d.get_end_sixty_cycle_year(), d.get_sixty_cycle())
+}
+
+fn r_ft(f: &Fortune) -> String {
+  format!("FT({} {} age={} scy={} sc={})", f.get_name(), f.get_index(), f.get_age(), f.get_sixty_cycle_year(), f.get_sixty_cycle())
+}
 
 fn u(x: i64) -> usize {
   x as usize
@@ -45,7 +83,13 @@ impl Handle {
       2 => Handle::CD(SixtyCycleDay::from_solar_day(SolarDay::new(i(a[0]), u(a[1]), u(a[2]))?)),
       3 => Handle::CH(SixtyCycleHour::from_solar_time(SolarTime::new(i(a[0]), u(a[1]), u(a[2]), u(a[3]), u(a[4]), u(a[5]))?)),
       4 => Handle::W(LunarWeek::new(i(a[0]), i(a[1]), u(a[2]), u(a[3]))?),
-      _ => Handle::T(SolarTerm::from_index(i(a[0]), i(a[1]))),
+      5 => Handle::T(SolarTerm::from_index(i(a[0]), i(a[1]))),
+      6 => Handle::EC(EightChar::from_sixty_cycle(SixtyCycle::from_index(i(a[0])), SixtyCycle::from_index(i(a[1])), SixtyCycle::from_index(i(a[2])), SixtyCycle::from_index(i(a[3]))), a[4]),
+      7 => Handle::CL(ChildLimit::from_solar_time(SolarTime::new(i(a[0]), u(a[1]), u(a[2]), u(a[3]), u(a[4]), u(a[5]))?, gender_of(a[6]))),
+      8 => Handle::DF(DecadeFortune::from_child_limit(ChildLimit::from_solar_time(SolarTime::new(i(a[0]), u(a[1]), u(a[2]), u(a[3]), u(a[4]), u(a[5]))?, gender_of(a[6])), i(a[7]))),
+      9 => Handle::FT(Fortune::from_child_limit(ChildLimit::from_solar_time(SolarTime::new(i(a[0]), u(a[1]), u(a[2]), u(a[3]), u(a[4]), u(a[5]))?, gender_of(a[6])), i(a[7]))),
+      10 => Handle::CM(SixtyCycleMonth::from_index(i(a[0]), i(a[1]))),
+      _ => Handle::LF(LunarFestival::from_index(i(a[0]), u(a[1])).ok_or("no such festival".to_string())?),
     })
   }
 
@@ -57,6 +101,12 @@ impl Handle {
       Handle::CH(_) => 3,
       Handle::W(_) => 4,
       Handle::T(_) => 5,
+      Handle::EC(_, _) => 6,
+      Handle::CL(_) => 7,
+      Handle::DF(_) => 8,
+      Handle::FT(_) => 9,
+      Handle::CM(_) => 10,
+      Handle::LF(_) => 11,
     }
   }
 
@@ -75,6 +125,20 @@ impl Handle {
       }
       Handle::W(w) => vec![w.get_year() as i64, w.get_month() as i64, w.get_index() as i64, w.get_start().get_index() as i64],
       Handle::T(t) => vec![t.get_year() as i64, t.get_index() as i64],
+      Handle::EC(e, y0) => vec![e.get_year().get_index() as i64, e.get_month().get_index() as i64, e.get_day().get_index() as i64, e.get_hour().get_index() as i64, *y0],
+      Handle::CL(c) => cl_base(c),
+      Handle::DF(d) => {
+        let mut b = cl_base(&d.get_child_limit());
+        b.push(d.get_index() as i64);
+        b
+      }
+      Handle::FT(f) => {
+        let mut b = cl_base(&f.get_child_limit());
+        b.push(f.get_index() as i64);
+        b
+      }
+      Handle::CM(m) => vec![m.get_sixty_cycle_year().get_year() as i64, m.get_index_in_year() as i64],
+      Handle::LF(f) => vec![f.get_day().get_year() as i64, f.get_index() as i64],
     }
   }
 
@@ -85,6 +149,7 @@ impl Handle {
   pub fn reliable(&self) -> bool {
     match self {
       Handle::T(t) => t.get_year() >= 1 && t.get_year() <= 9998,
+      Handle::CM(m) => m.get_sixty_cycle_year().get_year() >= 1 && m.get_sixty_cycle_year().get_year() <= 9998,
       _ => true,
     }
   }
@@ -97,6 +162,12 @@ impl Handle {
       Handle::CH(h) => r_sch(h),
       Handle::W(w) => r_lw(w),
       Handle::T(t) => r_term(t),
+      Handle::EC(e, _) => r_ec(e),
+      Handle::CL(c) => r_cl(c),
+      Handle::DF(d) => r_df(d),
+      Handle::FT(f) => r_ft(f),
+      Handle::CM(m) => r_scm(m),
+      Handle::LF(f) => r_lf(f),
     }
   }
 
@@ -140,6 +211,53 @@ impl Handle {
         2 => format!("{} {}", t.is_jie(), t.is_qi()),
         _ => r_sd(&t.get_julian_day().get_solar_day()),
       },
+      Handle::EC(e, y0) => match g {
+        0 => r_ec(e),
+        1 => format!("{} {} {} {}", e.get_fetal_origin(), e.get_fetal_breath(), e.get_own_sign(), e.get_body_sign()),
+        _ => {
+          // the instants with these eight characters in a year range around y0
+          let k = (g - 2).rem_euclid(64) as usize;
+          let start = y0 - EC_START_BACK[k / 8];
+          let end = y0 + EC_END_FWD[k % 8];
+          format!("{}..{} {}", start, end, join(&e.get_solar_times(i(start), i(end)), |t| r_st(t)))
+        }
+      },
+      Handle::CL(c) => match g {
+        0 => r_cl(c),
+        1 => r_ec(&c.get_eight_char()),
+        2 => r_df(&c.get_start_decade_fortune()),
+        3 => r_df(&c.get_decade_fortune()),
+        4 => r_ft(&c.get_start_fortune()),
+        _ => format!("{} {}", r_st(&c.get_end_time()), c.get_end_sixty_cycle_year()),
+      },
+      Handle::DF(d) => match g {
+        0 => r_df(d),
+        1 => r_cl(&d.get_child_limit()),
+        2 => r_ft(&d.get_start_fortune()),
+        3 => format!("{} {}", d.get_start_lunar_year(), d.get_end_lunar_year()),
+        4 => d.get_sixty_cycle().to_string(),
+        _ => format!("{} {}", d.get_start_age(), d.get_end_age()),
+      },
+      Handle::FT(f) => match g {
+        0 => r_ft(f),
+        1 => r_cl(&f.get_child_limit()),
+        2 => f.get_lunar_year().to_string(),
+        3 => f.get_sixty_cycle().to_string(),
+        _ => f.get_age().to_string(),
+      },
+      Handle::CM(m) => match g {
+        0 => r_scm(m),
+        1 => r_scd(&m.get_first_day()),
+        2 => join(&m.get_days(), |d| r_scd(d)),
+        3 => m.get_nine_star().to_string(),
+        4 => m.get_jupiter_direction().to_string(),
+        _ => format!("{} {}", m.get_year(), m.get_sixty_cycle()),
+      },
+      Handle::LF(f) => match g {
+        0 => r_lf(f),
+        1 => r_ld(&f.get_day()),
+        _ => format!("{} {}", f.get_name(), opt(f.get_solar_term().map(|t| r_term(&t)))),
+      },
     }
   }
 
@@ -151,7 +269,21 @@ impl Handle {
       Handle::CH(h) => Handle::CH(h.next(i(n))),
       Handle::W(w) => Handle::W(w.next(i(n))),
       Handle::T(t) => Handle::T(t.next(i(n))),
+      Handle::EC(e, y0) => Handle::EC(e.clone(), y0 + n),
+      Handle::CL(c) => Handle::CL(c.clone()),
+      Handle::DF(d) => Handle::DF(d.next(i(n))),
+      Handle::FT(f) => Handle::FT(f.next(i(n))),
+      Handle::CM(m) => Handle::CM(m.next(i(n))),
+      Handle::LF(f) => match f.next(i(n)) {
+        Some(x) => Handle::LF(x),
+        None => Handle::LF(f.clone()),
+      },
     }
+  }
+
+  /// kinds whose `step` is a real `next(n)` of the library
+  pub fn steppable(&self) -> bool {
+    !matches!(self, Handle::EC(_, _) | Handle::CL(_) | Handle::LF(_))
   }
 
   pub fn dup(&self) -> Handle {
@@ -162,6 +294,12 @@ impl Handle {
       Handle::CH(h) => Handle::CH(h.clone()),
       Handle::W(w) => Handle::W(w.clone()),
       Handle::T(t) => Handle::T(t.clone()),
+      Handle::EC(e, y0) => Handle::EC(e.clone(), *y0),
+      Handle::CL(c) => Handle::CL(c.clone()),
+      Handle::DF(d) => Handle::DF(d.clone()),
+      Handle::FT(f) => Handle::FT(f.clone()),
+      Handle::CM(m) => Handle::CM(m.clone()),
+      Handle::LF(f) => Handle::LF(f.clone()),
     }
   }
 
@@ -178,6 +316,18 @@ impl Handle {
       (Handle::W(w), 0) => Some(Handle::D(w.get_first_day())),
       (Handle::H(h), 1) => Some(Handle::CH(h.get_sixty_cycle_hour())),
       (Handle::D(d), 1) => Some(Handle::CD(d.get_sixty_cycle_day())),
+      // variant 2: the eight characters of an hour / of a child limit
+      (Handle::H(h), 2) => Some(Handle::EC(h.get_eight_char(), h.get_solar_time().get_year() as i64)),
+      (Handle::CH(h), 2) => Some(Handle::EC(h.get_eight_char(), h.get_solar_time().get_year() as i64)),
+      (Handle::CL(c), 2) => Some(Handle::EC(c.get_eight_char(), c.get_start_time().get_year() as i64)),
+      // child limit -> its first decade fortune / first fortune; decade fortune -> its first fortune
+      (Handle::CL(c), 0) => Some(Handle::DF(c.get_start_decade_fortune())),
+      (Handle::CL(c), 1) => Some(Handle::FT(c.get_start_fortune())),
+      (Handle::DF(d), 1) => Some(Handle::FT(d.get_start_fortune())),
+      (Handle::DF(d), 0) => Some(Handle::CL(d.get_child_limit())),
+      (Handle::FT(f), 0) => Some(Handle::CL(f.get_child_limit())),
+      (Handle::LF(f), 0) => Some(Handle::D(f.get_day())),
+      (Handle::CM(m), 1) => Some(Handle::CD(m.get_first_day())),
       _ => None,
     }
   }
@@ -191,6 +341,12 @@ impl Handle {
       (Handle::CH(a), Handle::CH(b)) => Some(format!("eq={}", a == b)),
       (Handle::W(a), Handle::W(b)) => Some(format!("eq={}", a == b)),
       (Handle::T(a), Handle::T(b)) => Some(format!("eq={}", a == b)),
+      (Handle::EC(a, _), Handle::EC(b, _)) => Some(format!("eq={}", a == b)),
+      (Handle::CL(a), Handle::CL(b)) => Some(format!("eq={}", a == b)),
+      (Handle::DF(a), Handle::DF(b)) => Some(format!("eq={}", a == b)),
+      (Handle::FT(a), Handle::FT(b)) => Some(format!("eq={}", a == b)),
+      (Handle::CM(a), Handle::CM(b)) => Some(format!("eq={}", a == b)),
+      (Handle::LF(a), Handle::LF(b)) => Some(format!("eq={}", a == b)),
       _ => None,
     }
   }
